@@ -202,7 +202,7 @@ def run_sess(shard, tier, acc):
     td = tree.scratch_tree()
     # the rule is deliberately NOT called 'Default': a resumed run without -r must take the name from the .sav
     R.write_ruleset(os.path.join(td, 'Rules', 'v'), spec)
-    for flags in (['--skip_brute'], ['--all_lower'], ['--skip_brute', '--all_lower']):
+    for flags in ([], ['--skip_brute'], ['--all_lower'], ['--skip_brute', '--all_lower']):
         S.clear_session(td)
         full = S.run_guesser(td, ['-r', 'v'] + flags)
         acc.evals += 1
@@ -222,6 +222,19 @@ def run_sess(shard, tier, acc):
             S.set_session(td, A.sav_raw, A.omn)
             Bn = S.run_guesser(td, ['--load'])
             acc.evals += 2
+            # flags given together with --load that differ from the saved ones: the saved ones win
+            for other in ([], ['--skip_brute'], ['--all_lower'], ['--skip_brute', '--all_lower']):
+                if other == flags:
+                    continue
+                S.set_session(td, A.sav_raw, A.omn)
+                Bo = S.run_guesser(td, ['-r', 'v', '--load'] + other)
+                acc.evals += 1
+                if Bo.exc:
+                    acc.fail({'kind': 'sess', 'spec_index': i, 'spec': spec, 'flags': flags, 'j': j, 'other': other}, '--load %s raised %s' % (' '.join(other), Bo.exc.strip().splitlines()[-1]), 'raise')
+                elif Bo.stdout != Bf.stdout:
+                    acc.fail({'kind': 'sess', 'spec_index': i, 'spec': spec, 'flags': flags, 'j': j, 'other': other},
+                             'session saved with [%s] (quit at guess %d) and resumed with "--load %s" emitted %d lines %r; resumed with the saved flags %d lines %r'
+                             % (' '.join(flags), j, ' '.join(other), len(Bo.stdout), Bo.stdout[:3], len(Bf.stdout), Bf.stdout[:3]), 'load-flags-not-from-save')
             acc.nontrivial += 1
             case = {'kind': 'sess', 'spec_index': i, 'spec': spec, 'flags': flags, 'j': j}
             if Bn.exc:
@@ -245,7 +258,7 @@ def replay(case):
     acc = Acc()
     if case['kind'] == 'sess':
         run_sess(('sess', case['spec_index']), 'thorough', acc)
-        fs = [f for f in acc.failures if f['case']['flags'] == case['flags'] and f['case']['j'] == case['j']]
+        fs = [f for f in acc.failures if f['case']['flags'] == case['flags'] and f['case']['j'] == case['j'] and f['case'].get('other') == case.get('other')]
         return fs[0]['msg'] if fs else None
     # loader layer: rerun the single spec
     global specs
